@@ -31,7 +31,7 @@ EXHAUSTIVE_PARTS = {"quick": ["Xfer: every arrival sequence of length <= n+2 for
                     "thorough": ["the same with length <= n+3"]}
 FLOORS = {"quick": dict({"text": 500, "legacy": 500, "ais": 500, "kind:item": 1500, "kind:cat": 500, "kind:obj": 500, "container-metadata": 200,
                          "item:metadata:present": 300, "item:sale_info:absent": 100, "anim:v0.1": 300, "anim:v1.0": 500, "anim:rotkeys": 300,
-                         "anim:duration0": 20, "mesh:weights": 200, "mesh:influences:4": 100, "mesh:seg:physics_convex": 100, "mesh:seg:skin": 100,
+                         "anim:duration0": 20, "mesh:weights": 200, "mesh:influences:4": 100, "mesh:seg:physics_convex": 100, "mesh:seg:skin": 100, "mesh:empty-segment": 40,
                          "xfer:pump": 100, "transfer:pump": 100, "xfer:dups": 1000, "transfer:reordered": 1000},
                         **{"asset_type:%s" % a.name: 15 for a in inv.ASSET_TYPES}, **{"folder_type:%s" % f.name: 5 for f in inv.FOLDER_TYPES},
                         **{"inv_type:%s" % i.name: 10 for i in inv.INV_TYPES}, **{"sale_type:%s" % s.name: 50 for s in inv.SALE_TYPES})}
